@@ -70,6 +70,7 @@ type Engine struct {
 	faIDs     map[string]int
 	ifaceFacts map[string]bool
 	ifaceList []ifaceEntry
+	reachCache map[*ssa.Function]map[string]bool
 	loadedPkgs []*ssa.Package
 	opts      EngineOpts
 }
@@ -410,6 +411,20 @@ func (s *State) pcList() []string {
 		out[i], out[j] = out[j], out[i]
 	}
 	return out
+}
+
+// known reports whether the path condition already contains the literal (1), its negation (-1) or neither (0).
+func (s *State) known(t string) int {
+	nt := sNot(t)
+	for p := s.pc; p != nil; p = p.prev {
+		if p.term == t {
+			return 1
+		}
+		if p.term == nt {
+			return -1
+		}
+	}
+	return 0
 }
 
 func (s *State) infeasible() bool {
